@@ -184,4 +184,3 @@ func SerializeDescs(ds []QDesc) []byte {
 	}
 	return out
 }
-
